@@ -183,6 +183,7 @@ func verifC16CommandFaults() {
 		}
 		pings := 0
 		lastIsPing := false
+		curAborted := cur != nil && cur.rst
 		if cur != nil {
 			for k, c := range cur.cmds {
 				if cur == preCur && k < preCmds {
@@ -198,7 +199,13 @@ func verifC16CommandFaults() {
 
 		if err == nil {
 			verifrt.Assert(lp.state == stateConnected, "success-leaves-peer-connected")
-			verifrt.Assert(open == 1 && cur != nil && !cur.closed, "success-keeps-exactly-one-connection")
+			if curAborted {
+				// the connection was reset under an idle peer and this round trip did no I/O on it
+				// (nothing for nsqd to notice yet; the next PING must - "ping-detects-dropped-connection")
+				verifrt.Assert(!ping && preState == stateConnected && open == 0, "only-an-idle-peer-can-miss-a-reset")
+			} else {
+				verifrt.Assert(open == 1 && cur != nil && !cur.closed, "success-keeps-exactly-one-connection")
+			}
 			if ping {
 				verifrt.Assert(pings == 1 && lastIsPing, "command-delivered-exactly-once")
 				if stepHits == 0 {
@@ -239,6 +246,10 @@ func verifC16CommandFaults() {
 		verifrt.Reach("reconnect-after-failure", i > 0 && preState == stateDisconnected && err == nil && !cbRejects)
 		verifrt.Reach("fault-mid-command", stepHits > 0 && err != nil && established == 1)
 		verifrt.Reach("bad-reply-seen", stepHits > 0 && cur != nil && cur.srvEOF)
+		verifrt.Reach("a-0-reset-connection-detected-by-the-next-command", w.rsts > 0 && !preAlive && preState == stateConnected && ping && err != nil)
+		if steps >= 3 {
+			verifrt.Reach("redial-after-reset", w.rsts > 0 && preState == stateDisconnected && err == nil && !cbRejects)
+		}
 	}
 	verifrt.Observe("callbacks", cbCalls)
 }
@@ -377,6 +388,11 @@ type verifLoopRun struct {
 	t0     time.Time // native: when the loop (and its ticker) started
 	ticks  int
 	exited bool
+	// topicDeletes: topic deletions so far. Vacuity witnesses that are replayed natively steer
+	// clear of them: with real goroutines a topic deletion on a dead connection takes the order
+	// that VerifC16_TopicDeleteRacesReconnect reports (c16_delrace.go), which the one canonical
+	// schedule of these harnesses does not contain.
+	topicDeletes int
 }
 
 func verifStartLoop(nLookupd, budget int) *verifLoopRun {
@@ -457,12 +473,39 @@ func (r *verifLoopRun) checkRest(where string) {
 		alive := ld.current().alive()
 		r.w.unlock()
 		if p.state == stateConnected && alive {
-			verifrt.Assert(verifInSync(r.n, ld), where+":connected-lookupd-lists-exactly-current-topics-and-channels")
+			inSync := verifInSync(r.n, ld)
+			if !inSync {
+				r.note(ld, where)
+			}
+			verifrt.Assert(inSync, where+":connected-lookupd-lists-exactly-current-topics-and-channels")
 		}
 		if r.w.hits == 0 {
 			verifrt.Assert(p.state == stateConnected && alive, where+":no-fault-keeps-the-connection")
 		}
 	}
+}
+
+// note (native replay only): what this lookupd has received, for the replay log.
+func (r *verifLoopRun) note(ld *verifLookupd, where string) {
+	if verifrt.Symbolic() {
+		return
+	}
+	r.w.lock()
+	line := "VERIF-NOTE " + where + " step " + string(rune('0'+r.w.step)) + " lookupd " + ld.addr + " received:"
+	for i, s := range ld.sessions {
+		line += " | conn " + string(rune('0'+i)) + ":"
+		for _, c := range s.cmds {
+			line += " [" + c.name + " " + c.topic + " " + c.channel + "]"
+		}
+		if s.srvEOF {
+			line += " (lookupd hung up)"
+		}
+		if s.closed {
+			line += " (closed)"
+		}
+	}
+	r.w.unlock()
+	println(line)
 }
 
 // churn operations on topic t0 / channel c0 (the real entry points the TCP/HTTP handlers use)
@@ -480,7 +523,9 @@ func (r *verifLoopRun) op(k int) {
 			t.DeleteExistingChannel("c0")
 		}
 	case 3:
-		n.DeleteExistingTopic("t0")
+		if n.DeleteExistingTopic("t0") == nil {
+			r.topicDeletes++
+		}
 	case 4:
 		r.tick()
 	}
@@ -499,7 +544,11 @@ func (r *verifLoopRun) finish() {
 	for _, ld := range r.w.lds {
 		p := r.peerFor(ld)
 		verifrt.Assert(p != nil && p.state == stateConnected, "converged:peer-connected")
-		verifrt.Assert(verifInSync(r.n, ld), "converged:lookupd-lists-exactly-current-topics-and-channels")
+		inSync := verifInSync(r.n, ld)
+		if !inSync {
+			r.note(ld, "converged")
+		}
+		verifrt.Assert(inSync, "converged:lookupd-lists-exactly-current-topics-and-channels")
 	}
 	verifrt.Assert(!r.exited, "lookup-loop-still-running")
 	close(r.n.exitChan)
@@ -560,8 +609,9 @@ func verifC16LoopFaults() {
 	}
 	hits := r.w.hits
 	verifrt.Reach("a-no-fault-struck", hits == 0 && r.ticks == 0)
-	verifrt.Reach("fault-then-converged", hits > 0)
+	verifrt.Reach("fault-then-converged", hits > 0 && r.topicDeletes == 0)
 	r.finish()
+	verifrt.Reach("connection-reset-then-converged", r.w.rsts > 0 && r.topicDeletes == 0)
 	verifrt.Observe("faults", hits)
 }
 
@@ -650,7 +700,7 @@ func verifC16LoopTwoPeers() {
 	}
 	verifrt.Assert(untouched >= 1, "one-fault-touches-one-lookupd")
 	verifrt.Reach("a-both-healthy", r.w.hits == 0 && untouched == 2 && r.ticks == 0)
-	verifrt.Reach("one-failing-one-healthy", r.w.hits > 0 && untouched == 1)
+	verifrt.Reach("one-failing-one-healthy", r.w.hits > 0 && untouched == 1 && r.topicDeletes == 0)
 	r.finish()
 }
 
